@@ -21,6 +21,7 @@ type Slot struct {
 	rd     map[int]int // reads since last write: goroutine -> clock
 	name   string
 	noRace bool
+	acc    map[string]*accessInfo
 }
 
 // Struct value (immutable).
@@ -365,7 +366,7 @@ func (r *Run) load(p Ptr) Value {
 	if p.slot == nil {
 		r.goPanic("nil pointer dereference (load)")
 	}
-	r.raceRead(p.slot)
+	r.raceAccess(p.slot, p.path, false)
 	v := r.walk(p.slot.v, p.path)
 	if p.winOff != nil {
 		a, ok := v.(*ArrVal)
@@ -386,7 +387,7 @@ func (r *Run) store(p Ptr, v Value) {
 	if p.winOff != nil {
 		r.unsupported("store through array window pointer")
 	}
-	r.raceWrite(p.slot)
+	r.raceAccess(p.slot, p.path, true)
 	p.slot.v = r.update(p.slot.v, p.path, v)
 }
 
